@@ -199,8 +199,9 @@ def run_ops(kind, fn, ops):
     try:
         return _run_ops(kind, fn, ops)
     finally:
-        sys.unraisablehook = old
+        del _unraisable[:]          # may finalise objects kept alive by a captured traceback
         del _unraisable[:]
+        sys.unraisablehook = old
 
 
 def _run_ops(kind, fn, ops):
@@ -627,9 +628,229 @@ def trace_validate(rep, pool, d, kind, seed, nbodies, nseqs, seqlen):
     return ntr
 
 
+# =========================================================================== orchestration
+def _tlc_many(jobs, par=4):
+    """run several TLC jobs concurrently (threads; each JVM gets 16/par workers).
+    jobs: list of (label, cfg, kwargs) -> list of TLCResult | Exception."""
+    from concurrent.futures import ThreadPoolExecutor
+    w = max(2, 16 // max(1, min(par, len(jobs))))
+
+    def one(j):
+        label, cfg, kw = j
+        try:
+            return tlc.run_tlc("GenProto.tla", cfg, workers=w, **kw)
+        except Exception as ex:          # noqa  (re-raised by the caller in the main thread)
+            return ex
+    with ThreadPoolExecutor(max_workers=par) as tp:
+        return list(tp.map(one, jobs))
+
+
+def _check(res):
+    if isinstance(res, Exception):
+        raise res
+    return res
+
+
+def _design_runs(rep, d, tier):
+    """R1 without the case table: mutants, the F7 exhibit, the repaired loop, deep lock step."""
+    jobs = []
+    for kind in KINDS:
+        g = dict(G_MUT, ops=kind_ops(kind, G_MUT["ops"]))
+        jobs.append((("exhibit", kind, "faithful"),
+                     make_cfg(d, f"ex_{kind}", kind, "faithful", g, keep=True, emit=False, invs=["LockStep"]), {}))
+        for m in MUTANTS[kind]:
+            jobs.append((("mutant", kind, m),
+                         make_cfg(d, f"mut_{kind}_{m}", kind, m, g, keep=True, emit=False, invs=["LockStepModF7"]), {}))
+    g = dict(G_TRYQ, ops=kind_ops("agen", ALL_OPS))
+    jobs.append((("fixed", "agen", "fixed"),
+                 make_cfg(d, "fixed_agen", "agen", "fixed", g, keep=False, emit=False, invs=["LockStep", "NoOrphan"]), {}))
+    deep = dict(G_TRY, maxops=4 if tier == "quick" else 6, postmax=1 if tier == "quick" else 2)
+    for kind in KINDS:
+        g = dict(deep, ops=kind_ops(kind, deep["ops"]))
+        jobs.append((("deep", kind, "faithful"),
+                     make_cfg(d, f"deep_{kind}", kind, "faithful", g, keep=False, emit=False,
+                              invs=["TypeOK", "LockStepModF7", "NoOrphan"]), {"coverage": True}))
+    results = _tlc_many(jobs, par=4)
+    model_broken = []
+    for (what, kind, wrap), cfg, _ in jobs:
+        res = _check(results.pop(0))
+        rep.tlc(res, f"GenProto {what} {kind} {wrap}")
+        if what == "exhibit":
+            st = res.error_trace[-1][1] if res.error_trace else {}
+            ok = (res.violated == "LockStep" and st.get("ops", ("",))[-1] == "tGE" and st["po"][-1]["k"] == "stop"
+                  and st["co"][-1] == {"k": "raise", "c": "GeneratorExit", "v": ""})
+            if not ok:
+                rep.machinery(f"GenProto.tla ({kind}, faithful wrapper): TLC was expected to exhibit the named deviation "
+                              f"F7_DelegateGeneratorExit as the shortest violation of LockStep, got {res.violated} {st}")
+            rep.add("f7_exhibited_by_tlc")
+            rep.sample({"tlc_counterexample_of_LockStep": {"kind": kind, "body": st["body"], "ops": list(st["ops"]),
+                                                           "plain": st["po"][-1], "wrapped": st["co"][-1]}})
+        elif what == "mutant":
+            if res.violated != "LockStepModF7":
+                rep.machinery(f"spec mutant Wrap={wrap} ({kind}) is not rejected by TLC: the model is vacuous")
+            rep.add("spec_mutants_killed")
+        elif what == "fixed":
+            if res.violated:
+                rep.machinery(f"GenProto.tla: the repaired async loop (Wrap=fixed) violates {res.violated}")
+            rep.add("fixed_loop_satisfies_LockStep")
+        else:
+            if res.violated:
+                model_broken.append((kind, res.violated, res.error_trace[-1][1] if res.error_trace else {}))
+            if res.coverage.get("Do", (0, 0))[1] == 0:
+                rep.machinery("vacuous TLC run: Do never taken")
+    return model_broken
+
+
+TABLES = {
+    "quick": [("straight", G_STRAIGHT), ("try", G_TRYQ)],
+    "thorough": [("straight", dict(G_STRAIGHT, maxops=4)), ("try", G_TRY),
+                 ("try2", dict(G_TRYQ, hblk=["Y2", "LB", "RN", "RR", "XE", "XS"], hblkmax=2, post=["Y1", "XE"],
+                               ops=["next", "send7", "tE1", "tGE", "close"]))],
+}
+
+
+def _table_runs(rep, d, tier, pool):
+    jobs = []
+    for name, g0 in TABLES[tier]:
+        for kind in KINDS:
+            g = dict(g0, ops=kind_ops(kind, g0["ops"]))
+            invs = ["TypeOK", "LockStepModF7", "NoOrphan", "Emit"] + (["EmitCode"] if name != "straight" else [])
+            jobs.append(((name, kind), make_cfg(d, f"tab_{name}_{kind}", kind, "faithful", g, keep=True, emit=True,
+                                                invs=invs), {"coverage": False}))
+    model_broken = []
+    cmp = Compare(rep, "case table of GenProto.tla")
+    stats = {k: {"ops": {}, "obs": {}, "f7": 0, "excl": 0, "log": 0} for k in KINDS}
+    results = _tlc_many(jobs, par=3)
+    for ((name, kind), cfg, _), res in zip(jobs, results):
+        res = _check(res)
+        rep.tlc(res, f"GenProto table {name} {kind}")
+        if res.violated:
+            model_broken.append((kind, res.violated, res.error_trace[-1][1] if res.error_trace else {}))
+            continue
+        rows = [r for r in res.printed if isinstance(r, list) and len(r) == 9]
+        codes = [r for r in res.printed if isinstance(r, list) and len(r) == 3]
+        res.printed = None
+        res.output = ""
+        if not rows:
+            rep.machinery(f"GenProto table {name} {kind}: TLC emitted no rows")
+        for body, code, h in codes:
+            c2, h2 = compile_tree(tree_of(body))
+            rep.count()
+            if c2 != code or h2 != h:
+                rep.machinery(f"driver compile_tree disagrees with GenProto!Compile on {body}: {c2} {h2} vs {code} {h}")
+        st = stats[kind]
+        for r in rows:
+            for o in r[1]:
+                st["ops"][o] = st["ops"].get(o, 0) + 1
+            for o in r[2]:
+                k = o.split("|")[0]
+                st["obs"][k] = st["obs"].get(k, 0) + 1
+            st["f7"] += any(r[8])
+            st["excl"] += bool(r[7])
+            st["log"] += bool(r[5])
+        replay_rows(rep, pool, kind, rows, f"case table {name}", cmp)
+        rep.add("rows_replayed", len(rows))
+        rep.add("traces_validated_against_impl", len(rows))
+        if cmp.machinery:
+            break
+    if cmp.machinery:
+        rep.machinery("the specification's account of CPython disagrees with the undecorated objects "
+                      "(no verdict about beartype possible):\n  " + "\n  ".join(cmp.machinery))
+    for kind, st in stats.items():
+        missing = [o for o in kind_ops(kind, TABLES[tier][0][1]["ops"]) + ["del"] if not st["ops"].get(o)]
+        missing += [k for k in ("yield", "stop", "raise", "ok") if not st["obs"].get(k)]
+        missing += [k for k in ("f7", "excl", "log") if not st[k]]
+        if missing and not model_broken:
+            rep.machinery(f"vacuous case table for {kind}: never seen {missing}")
+    rep.cov["table_stats"] = {k: {"f7_rows": v["f7"], "excluded_rows": v["excl"], "rows_with_side_effects": v["log"],
+                                  "obs": v["obs"]} for k, v in stats.items()}
+    return model_broken
+
+
+def _hint_mismatch(rep):
+    """the annotation of a generator function is checked: a hint that no generator object can
+    satisfy is rejected (at decoration time or at the first call), never silently accepted."""
+    from beartype import beartype
+    for kind, hint in (("gen", "int"), ("agen", "int"), ("gen", "AsyncGenerator[int, None]"),
+                       ("agen", "Generator[int, None, None]")):
+        rep.count()
+        src = render(kind, ["Y1"], f"c08_bad_{kind}_{abs(hash(hint)) % 1000}", hint)
+        ns = dict(_namespace())
+        exec(compile(src, "<c08>", "exec", dont_inherit=True), ns)
+        f = [v for k, v in ns.items() if k.startswith("c08_bad_")][0]
+        try:
+            g = beartype(f)
+            obs, _ = run_ops(kind, g, ["next", "del"])
+            ok = obs[0].startswith("raise|BeartypeCallHintReturnViolation")
+        except Exception as ex:      # noqa
+            ok = type(ex).__module__.startswith("beartype.roar")
+        if not ok:
+            rep.spec_drift(f"{kind} function annotated '-> {hint}' is accepted and iterates normally: {obs}")
+
+
 def run(rep, tier, seed):
-    raise NotImplementedError
+    rep.assumptions += [
+        "generator bodies are those of the grammar of GenProto.tla (one try statement in the exhaustive runs, nested "
+        "try statements in the recorded traces); coroutine bodies suspend in a trivial awaitable whose throw() raises "
+        "the thrown exception (throw(StopIteration) into a coroutine is therefore left out)",
+        "asynchronous generators are driven without an event loop (asend(v).send(None)); bodies contain no real await",
+        "exceptions are compared by class and arguments, tracebacks / __context__ ignored; the return violation by class",
+        "of a finalisation (object dropped) only the side-effect log is demanded of the decorated object; what "
+        "sys.unraisablehook reports is compared with the model only (spec drift)",
+        "CPython 3.12 semantics of generator objects as transcribed in GenProto!Op, validated row by row against the "
+        "undecorated objects",
+    ]
+    import warnings
+    warnings.simplefilter("ignore")
+    import beartype  # noqa: F401  (children fork from here)
+    with scratch("c08-") as d:
+        pool = mp.get_context("fork").Pool(16)
+        try:
+            broken = _design_runs(rep, d, tier)
+            broken += _table_runs(rep, d, tier, pool)
+            nb, ns, sl = (150, 4, 10) if tier == "quick" else (2500, 6, 14)
+            for kind in KINDS:
+                trace_validate(rep, pool, d, kind, seed, nb, ns, sl)
+            _hint_mismatch(rep)
+        finally:
+            pool.terminate()
+            pool.join()
+    if broken:
+        non_f7 = [v for v in rep.violations if v["key"].get("deviation") != "F7_DelegateGeneratorExit"]
+        msg = "; ".join(f"{k}: {inv} at body={st.get('body')} ops={st.get('ops')} plain={st.get('po')} "
+                        f"wrapped={st.get('co')}" for k, inv, st in broken[:3])
+        if not non_f7:
+            rep.machinery("GenProto.tla: the model of the faithful wrapper violates the lock-step invariant beyond F7, "
+                          "but the real code shows no such difference (the transcription is wrong): " + msg)
+        rep.note("design-level violation beyond F7 (confirmed on the real code, see violations): " + msg)
+    rep.cov["exhaustive"] = True
+    rep.cov["scope"] = ("all bodies of the template grammar x all operation sequences up to the bound, per kind; "
+                        "see tlc_runs")
 
 
 def replay(rep, path):
-    raise NotImplementedError
+    case = json.load(open(path))["case"]
+    import warnings
+    warnings.simplefilter("ignore")
+    kind = case["kind"]
+    tree = case["tree"] if "tree" in case else tree_of(case["body"])
+    plain, dec, src = define(kind, tree, case.get("hint", 0))
+    print(src)
+    ops = case["ops"] if case["ops"] and case["ops"][-1] == "del" else list(case["ops"]) + ["del"]
+    po, pl = run_ops(kind, plain, ops)
+    do, dl = run_ops(kind, dec, ops)
+    print(f"{'operation':10} {'undecorated':45} decorated")
+    bad = 0
+    for op, a, b in zip(ops, po, do):
+        differs = a != b and op != "del" and not b.startswith("raise|BeartypeCallHintReturnViolation")
+        bad += differs
+        print(f"{op:10} {a:45} {b}{'    <-- differs' if differs else ''}")
+    print("log", pl, dl)
+    for name in ("isgeneratorfunction", "isasyncgenfunction", "iscoroutinefunction"):
+        print(name, getattr(inspect, name)(plain), getattr(inspect, name)(dec))
+    if bad or pl != dl:
+        rep.violation(json.load(open(path))["key"], json.load(open(path))["what"], case)
+    rep.level = "exploration"
+    rep.count(len(ops))
+    rep.nontrivial("a")
+    rep.nontrivial("b")
